@@ -29,6 +29,7 @@ package crdt
 //@ spec func clk(m map[string]uint64, n string) uint64 = ite(has(m, n), m[n], 0)
 
 //@ func (*ORSet).Merge(s, other)
+//@   also C39
 //@   closed-heap on
 //@   bounds off
 //@   requires s.clock != nil && s.entries != nil && (is(other, *ORSet) ==> other.(*ORSet).clock != nil && other.(*ORSet).entries != nil)
